@@ -324,6 +324,8 @@ class Ensure(Contract):
         cs.append(("new-blocks-are-the-node-and-its-tails", z3.ForAll([b], z3.Implies(z3.And(w1.head(b), b >= size0), b == size0))))
         blank = z3.And(w1.f("we", size0) == 0, w1.f("left", size0) == 0, w1.f("right", size0) == 0, w1.f("child", size0) == 0, w1.f("outl", size0) == 0, w1.f("inl", size0) == 0, z3.Not(w1.flag(size0, PAGE)), z3.Not(w1.flag(size0, CRAWLED)), z3.Not(w1.flag(size0, RULE)), w1.flag(size0, NOCHILD))
         cs.append(("a-created-node-is-blank", z3.Implies(size1 > size0, blank)))
+        # a node is created only for a path no head spelled before the call
+        cs.append(("created=>its-path-was-not-stored-before", z3.ForAll([b], z3.Implies(z3.And(size1 > size0, w0.head(b)), w0.path(b) != EXT(gpath0, s)))))
         return cs
 
     def check(self, ex, p0, res, tag):
@@ -527,7 +529,7 @@ def havoc_history(ex, p):
         o.f["webentity"] = Opt(fresh("h_noweb", BOOL), fresh("h_we", INT))
         o.f["webentity_prefix"] = fresh("h_prefix", BYTES)
         o.f["webentity_position"] = fresh("h_pos", INT)
-        o.f["webentity_creation_rules"] = p.new_obj("list", {"len": fresh("h_nrules", INT), "elem": z3.Function("h_rule!%d" % id(o), INT, INT), "on_append": _append_rule, "last": fresh("h_lastrule", INT)})
+        o.f["webentity_creation_rules"] = p.new_obj("list", {"len": fresh("h_nrules", INT), "arr": fresh("h_rules", z3.ArraySort(INT, INT))})
 
 
 def _append_rule(ex, p, o, v):
@@ -644,6 +646,21 @@ def _addlru_apply(self, ex, p, recv, args, kw, ln):
             q.w["pre:" + k[4:]] = q.w.pop(k)
     for k_ in TKEYS + GHOSTS:
         q.w["mid:" + k_] = q.w[k_]  # the state right after add_lru
+    if ADD_LRU_HISTORY and "__walked" not in q.w:
+        # the (verified) history clauses, for the FIRST add_lru call of the caller: the
+        # level functions are those of this call's pre-state
+        for ax in addlru_history_axioms(q, "pre:"):
+            q.assume(ax)
+        kk = fresh("walked", INT)
+        q.assume(z3.And(kk >= 0, kk <= QL))
+        q.w["__walked"] = kk
+        ho = q.obj(hist)
+        ho.f["webentity_creation_rules"] = q.new_obj("list", {"len": fresh("h_nrules", INT), "arr": fresh("h_rules", z3.ArraySort(INT, INT))})
+        q.assume(z3.Or(ho.f["webentity"].none, ho.f["webentity"].val >= 1))
+        for nm, f in history_is(ex, q, hist, kk, "history", ADD_SPEC) + rules_is(ex, q, hist, kk, "history", ADD_SPEC):
+            q.assume(f)
+        jj = z3.Int("j")
+        q.assume(z3.ForAll([jj], z3.Implies(z3.And(jj >= kk, jj < QL), z3.And(LEVEL_WE(jj) == 0, z3.Not(LEVEL_RULE(jj))))))
     q.w.update(saved_old)
     Wd.prune_dead_world_facts(q)
     q.mut += 1
@@ -1217,15 +1234,22 @@ def deep_lemma_step(ex, p):
     ex.oblige(q, "lemma:DEEP-names-a-webentity:step", z3.Implies(DEEP(j + 1) >= 0, w.f("we", wn(p, DEEP(j + 1))) != 0), None)
 
 
-def history_is(ex, p, href, i, name="history"):
-    """the walk history records exactly the deepest webentity among the first i levels"""
+def follow_spec(p):
+    """the level functions of a read-only walk: the webentity / rule flag of the head
+    spelling the first j+1 stems, in the (constant) store"""
     w = TW(p)
+    return {"DEEP": DEEP, "LWE": lambda j: w.f("we", wn(p, j)), "NR": NRULES, "RL": RULE_LEVEL, "LRULE": lambda j: w.flag(wn(p, j), RULE)}
+
+
+def history_is(ex, p, href, i, name="history", spec=None):
+    """the walk history records exactly the deepest webentity among the first i levels"""
+    spec = spec or follow_spec(p)
     o = p.obj(href)
     we = o.f["webentity"]
     pos = to_z3(o.f["webentity_position"])
     pre = o.f["webentity_prefix"]
-    d = DEEP(i)
-    cs = [("%s:position" % name, pos == z3.If(d == -1, -1, blen(PRE(d + 1)))), ("%s:webentity" % name, enc_we(we) == z3.If(d == -1, 0, w.f("we", wn(p, d))))]
+    d = spec["DEEP"](i)
+    cs = [("%s:position" % name, pos == z3.If(d == -1, -1, blen(PRE(d + 1)))), ("%s:webentity" % name, enc_we(we) == z3.If(d == -1, 0, spec["LWE"](d)))]
     if isinstance(pre, str):
         cs.append(("%s:prefix-empty-when-none" % name, z3.BoolVal(pre == "") if True else None))
         cs.append(("%s:no-webentity-yet" % name, d == -1))
@@ -1233,6 +1257,52 @@ def history_is(ex, p, href, i, name="history"):
         cs.append(("%s:prefix" % name, z3.Implies(d >= 0, to_z3(pre) == PRE(d + 1))))
         cs.append(("%s:prefix-empty-when-none" % name, z3.Implies(d == -1, blen(to_z3(pre)) == 0)))
     return cs
+
+
+# The rule anchors recorded by a walk (C06): NRULES(i) = number of levels j < i whose
+# head carries the creation-rule flag; RULE_LEVEL(k) = the level of the k-th such head
+# (pinned down at the flagged levels: RULE_LEVEL(NRULES(j)) = j).  Spec functions of the
+# constant store of a read-only walk, defined by recursion on the level.
+NRULES = z3.Function("NRULES", INT, INT)
+RULE_LEVEL = z3.Function("RULE_LEVEL", INT, INT)
+
+
+def rule_axioms(p, spec=None):
+    spec = spec or follow_spec(p)
+    NR, RL = spec["NR"], spec["RL"]
+    j = z3.Int("j")
+    fl = spec["LRULE"](j)
+    return [
+        NR(0) == 0,
+        z3.ForAll([j], z3.Implies(j >= 0, NR(j + 1) == NR(j) + z3.If(fl, 1, 0))),
+        z3.ForAll([j], z3.Implies(j >= 0, z3.And(NR(j) >= 0, NR(j) <= j))),
+        z3.ForAll([j], z3.Implies(z3.And(j >= 0, fl), RL(NR(j)) == j)),
+    ]
+
+
+def rules_is(ex, p, href, i, name="history", spec=None):
+    """the walk history records, in walking order, exactly one anchor position per
+    rule-flagged level among the first i: the byte length of that stem-prefix"""
+    from pyvc.sym import list_elem
+
+    spec = spec or follow_spec(p)
+    NR, RL = spec["NR"], spec["RL"]
+    o = p.obj(href)
+    r = p.obj(o.f["webentity_creation_rules"])
+    k = z3.Int("k")
+    if "items" in r.f:
+        items = r.f["items"]
+        cs = [("%s:rules:one-position-per-flagged-level" % name, NR(i) == len(items))]
+        for kk, v in enumerate(items):
+            lv = RL(kk)
+            cs.append(("%s:rules:position-%d" % (name, kk), z3.And(to_z3(v) == blen(PRE(lv + 1)), lv >= 0, lv < i, spec["LRULE"](lv))))
+        return cs
+    n, el = r.f["len"], list_elem(r)
+    lv = RL(k)
+    return [
+        ("%s:rules:one-position-per-flagged-level" % name, n == NR(i)),
+        ("%s:rules:k-th-position-is-the-length-of-the-k-th-flagged-stem-prefix" % name, z3.ForAll([k], z3.Implies(z3.And(k >= 0, k < n), z3.And(to_z3(el(k)) == blen(PRE(lv + 1)), lv >= 0, lv < i, spec["LRULE"](lv))))),
+    ]
 
 
 _reader_for_inv0 = reader_for_inv
@@ -1244,6 +1314,7 @@ def reader_for_inv(ex, p):  # noqa: F811
     if "history" in p.env and ex.fn in FOLLOW_USERS and "G.addr" in p.w and getattr(ex, "with_history", False):
         i = to_z3(p.env[[k for k in p.env if k.startswith("__i")][0]])
         cs += history_is(ex, p, p.env["history"], i)
+        cs += rules_is(ex, p, p.env["history"], i)
     return cs
 
 
@@ -1251,6 +1322,7 @@ def reader_while_inv(ex, p):  # noqa: F811
     cs = _reader_while_inv0(ex, p)
     if "history" in p.env and ex.fn in FOLLOW_USERS and getattr(ex, "with_history", False):
         cs += history_is(ex, p, p.env["history"], to_z3(p.env["i"]))
+        cs += rules_is(ex, p, p.env["history"], to_z3(p.env["i"]))
     return cs
 
 
@@ -1287,10 +1359,12 @@ class FollowHistory(Reader):
         node = fresh_node_at(q, store, rb, "followed")
         w = TW(q)
         q.assume(z3.Implies(z3.Not(nonode), z3.And(k == QL, QL >= 1, w.head(rb), w.path(rb) == QP(QL))))
-        hist = q.new_obj("LRUTrieWalkHistory", {"lru": args[0], "webentity": Opt(fresh("h_noweb", BOOL), fresh("h_we", INT)), "webentity_prefix": fresh("h_prefix", BYTES), "webentity_position": fresh("h_pos", INT), "webentity_creation_rules": q.new_obj("list", {"len": fresh("h_nrules", INT), "elem": lambda i: fresh("h_rule", INT)}), "page_was_created": False})
+        hist = q.new_obj("LRUTrieWalkHistory", {"lru": args[0], "webentity": Opt(fresh("h_noweb", BOOL), fresh("h_we", INT)), "webentity_prefix": fresh("h_prefix", BYTES), "webentity_position": fresh("h_pos", INT), "webentity_creation_rules": q.new_obj("list", {"len": fresh("h_nrules", INT), "arr": fresh("h_rules", z3.ArraySort(INT, INT))}), "page_was_created": False})
         o = q.obj(hist)
         q.assume(z3.Or(o.f["webentity"].none, o.f["webentity"].val >= 1))
         for nm, f in history_is(ex, q, hist, k):
+            q.assume(f)
+        for nm, f in rules_is(ex, q, hist, k):
             q.assume(f)
         q.mut += 1
         return [(q, (Opt(nonode, node), hist))]
@@ -1298,7 +1372,7 @@ class FollowHistory(Reader):
     def setups(self, ex):
         for s in Reader.setups(self, ex):
             p = s[0]
-            for ax in deep_axioms(p):
+            for ax in deep_axioms(p) + rule_axioms(p):
                 p.assume(ax)
             yield s
 
@@ -1330,7 +1404,7 @@ class FollowHistory(Reader):
                         pass
             else:
                 lvl = QL
-            for nm, f in history_is(ex, p1, hist, lvl, "returned-history"):
+            for nm, f in history_is(ex, p1, hist, lvl, "returned-history") + rules_is(ex, p1, hist, lvl, "returned-history"):
                 ex.oblige(p1, nm, f, None)
 
 
@@ -1697,3 +1771,229 @@ def install(lib):
     cs = _install_prev9(lib)
     lib.loop_spec("LRUTrie.webentity_dfs_iter::while#0", LoopSpec(realm_inv, havoc=realm_havoc))
     return cs + [LruDirname(), WebentityDfs()]
+
+
+
+# ============================================================================ add_lru: the returned walk history (C06, C04)
+# The level functions of add_lru are taken on the PRE-state of the request (this is the
+# reading of C06: E and the rule anchors are those existing when the page is submitted):
+# LEVEL_WE(j) / LEVEL_RULE(j) = webentity / rule flag of the head that spelled the first
+# j+1 stems when add_lru was entered, 0 / false when no head did.  add_lru itself never
+# writes a webentity or a rule flag and creates blank heads only (writer_frame), so these
+# are also the values it reads while walking.
+LEVEL_WE = z3.Function("LEVEL_WE", INT, INT)
+LEVEL_RULE = z3.Function("LEVEL_RULE", INT, BOOL)
+DEEP_A = z3.Function("DEEP_PRE", INT, INT)
+NRULES_A = z3.Function("NRULES_PRE", INT, INT)
+RULE_LEVEL_A = z3.Function("RULE_LEVEL_PRE", INT, INT)
+
+ADD_SPEC = {"DEEP": DEEP_A, "LWE": lambda j: LEVEL_WE(j), "NR": NRULES_A, "RL": RULE_LEVEL_A, "LRULE": lambda j: LEVEL_RULE(j)}
+
+
+def addlru_history_axioms(p, prefix="old:"):
+    """definitions over the `old:` snapshot of p (taken at function entry)"""
+    w0 = TW(type("P", (), {"w": {k[len(prefix):]: v for k, v in p.w.items() if k.startswith(prefix)}})())
+    p0 = w0.p
+    j = z3.Int("j")
+    a0 = z3.Select(p0.w["G.addr"], QP(j + 1))
+    st0 = z3.And(w0.head(a0), w0.path(a0) == QP(j + 1))
+    cs = [
+        z3.ForAll([j], z3.Implies(j >= 0, LEVEL_WE(j) == z3.If(st0, w0.f("we", a0), 0))),
+        z3.ForAll([j], z3.Implies(j >= 0, LEVEL_RULE(j) == z3.And(st0, w0.flag(a0, RULE)))),
+        DEEP_A(0) == -1,
+        z3.ForAll([j], z3.Implies(j >= 0, DEEP_A(j + 1) == z3.If(LEVEL_WE(j) != 0, j, DEEP_A(j)))),
+        z3.ForAll([j], z3.Implies(j >= 0, z3.And(DEEP_A(j) >= -1, DEEP_A(j) < j))),
+        z3.ForAll([j], z3.Implies(z3.And(j >= 0, DEEP_A(j) >= 0), LEVEL_WE(DEEP_A(j)) != 0)),
+    ]
+    return cs + rule_axioms(p, ADD_SPEC)
+
+
+def _entry_world_path(p0):
+    """a path whose world is the entry store of p0 (for lemmas about the entry store)"""
+    q = Path()
+    q.w = dict(old_view(p0).p.w)
+    q.pc = list(p0.pc)
+    return q
+
+
+def addlru_history_inv(ex, p, i):
+    if "history" not in p.env or not isinstance(p.env["history"], Ref):
+        return []
+    h = p.env["history"]
+    return history_is(ex, p, h, i, "history", ADD_SPEC) + rules_is(ex, p, h, i, "history", ADD_SPEC)
+
+
+_add_lru_inv0_base = add_lru_inv0
+_add_lru_inv1_base = add_lru_inv1
+
+
+def add_lru_inv0(ex, p):  # noqa: F811
+    cs = _add_lru_inv0_base(ex, p)
+    if getattr(ex, "addlru_history", False):
+        cs += addlru_history_inv(ex, p, to_z3(p.env["i"]))
+        # the descending loop goes round again only below an existing node: nothing has
+        # been created yet at its head (a created node has no child, so the loop stops)
+        cs.append(("nothing-created-while-descending", p.w["T.size"] == p.w["old:T.size"]))
+        # (instance of the defining equations at the level about to be walked: it only
+        # puts the term "the head that spelled level i at entry" on the table)
+        i = to_z3(p.env["i"])
+        w0 = old_view(p)
+        a0 = z3.Select(w0.p.w["G.addr"], QP(i + 1))
+        st0 = z3.And(w0.head(a0), w0.path(a0) == QP(i + 1))
+        cs.append(("level-functions-unfolded-at-the-current-level", z3.And(LEVEL_WE(i) == z3.If(st0, w0.f("we", a0), 0), LEVEL_RULE(i) == z3.And(st0, w0.flag(a0, RULE)))))
+    return cs
+
+
+def add_lru_inv1(ex, p):  # noqa: F811
+    cs = _add_lru_inv1_base(ex, p)
+    if getattr(ex, "addlru_history", False):
+        # the child-creation loop leaves the history alone: it describes the levels the
+        # descending loop walked (ghost `__walked`, fixed when this loop is entered)
+        if "__walked" not in p.w:
+            k = to_z3(p.env["i"])
+            p.w["__walked"] = k
+            # lemma at the hand-over between the two loops: the descending loop stopped
+            # either at the end of the query or at a node without child - then the next
+            # stem-prefix was not stored when the request started (else its parent, which
+            # is that node, would have had a child pointer: I3, and pointers are only set)
+            w0 = old_view(p)
+            P0 = w0.p
+            u1 = z3.Select(P0.w["G.addr"], QP(k + 1))
+            pp = w0.f("parent", u1)
+            q = p.fork()
+            terms_cur = [pp]
+            n_ = p.env.get("node")
+            if isinstance(n_, Ref) and p.obj(n_).f["block"] is not None:
+                terms_cur.append(node_blk(p, n_))
+            for f in instances_at(P0, [u1, pp]) + instances_at(p, terms_cur):
+                q.assume(f)
+            G = z3.Implies(k < QL, z3.Not(stored(P0, k + 1)))
+            ex.oblige(q, "hand-over:the-first-level-not-walked-was-not-stored-at-entry", G, None, "loop")
+            p.assume(G)
+        k = p.w["__walked"]
+        cs.append(("walked-levels-range", z3.And(k >= 0, k <= to_z3(p.env["i"]))))
+        cs += addlru_history_inv(ex, p, k)
+    return cs
+
+
+_AddLru_setups0 = AddLru.setups
+_AddLru_check0 = AddLru.check
+_AddLru_prepare0 = AddLru.prepare
+
+
+ADD_LRU_HISTORY = __import__("os").environ.get("PYVC_ADDLRU_HISTORY") == "1"  # work in progress: see DESIGN I.6
+
+
+def _addlru_prepare(self, ex):
+    _AddLru_prepare0(self, ex)
+    ex.addlru_history = ADD_LRU_HISTORY
+
+
+def _addlru_setups(self, ex):
+    for s_ in _AddLru_setups0(self, ex):
+        p = s_[0]
+        if ADD_LRU_HISTORY:
+            for ax in addlru_history_axioms(p):
+                p.assume(ax)
+        yield s_
+
+
+def _addlru_check(self, ex, p0, res, flag):
+    _AddLru_check0(self, ex, p0, res, flag)
+    if not ex.addlru_history:
+        return
+    for p1, kind, val in res:
+        if kind == "raise" or not (isinstance(val, tuple) and len(val) == 2 and isinstance(val[1], Ref)):
+            continue
+        hist = val[1]
+        k = p1.w.get("__walked")
+        if k is None:
+            ex.oblige(p1, "returned-history:walk-recorded", False, None)
+            continue
+        for nm, f in history_is(ex, p1, hist, k, "returned-history", ADD_SPEC) + rules_is(ex, p1, hist, k, "returned-history", ADD_SPEC):
+            ex.oblige(p1, nm, f, None)
+        ex.oblige(p1, "returned-history:walked-levels-range", z3.And(k >= 0, k <= QL), None)
+        # levels beyond the walk were not stored when the request started (hand-over
+        # lemma + prefix closure of the entry store), hence carried nothing
+        P0 = old_view(p1).p
+        q2 = p1.fork()
+        G = z3.Implies(k < QL, z3.Not(stored(P0, k + 1)))
+        q2.pc = [c for c in q2.pc if not _has_quant_(c)]
+        jj = z3.Int("j")
+        a0 = z3.Select(P0.w["G.addr"], QP(jj + 1))
+        w0 = old_view(p1)
+        st0 = z3.And(w0.head(a0), w0.path(a0) == QP(jj + 1))
+        q2.assume(G)
+        q2.assume(z3.And(k >= 0, k <= QL))
+        q2.assume(prefix_closure(P0))
+        q2.assume(z3.ForAll([jj], z3.Implies(jj >= 0, LEVEL_WE(jj) == z3.If(st0, w0.f("we", a0), 0))))
+        q2.assume(z3.ForAll([jj], z3.Implies(jj >= 0, LEVEL_RULE(jj) == z3.And(st0, w0.flag(a0, RULE)))))
+        j = fresh("j", INT)
+        ex.oblige(q2, "returned-history:levels-beyond-the-walk-carried-nothing-before-the-request", z3.Implies(z3.And(j >= k, j < QL), z3.And(LEVEL_WE(j) == 0, z3.Not(LEVEL_RULE(j)))), None)
+        closure_step_lemma(ex, _entry_world_path(p0))
+        o = p1.obj(hist)
+        ex.oblige(p1, "returned-history:lru-is-the-argument", to_z3(o.f["lru"]) == PRE(QL), None)
+
+
+AddLru.prepare = _addlru_prepare
+AddLru.setups = _addlru_setups
+AddLru.check = _addlru_check
+
+_install_hist = install
+
+
+def install(lib):
+    cs = _install_hist(lib)
+    lib.loop_spec("LRUTrie.add_lru::while#0", LoopSpec(add_lru_inv0, havoc=havoc_add_lru, locals_=("i", "lru"), world=TKEYS + GHOSTS, prune=Wd.prune_dead_world_facts))
+    lib.loop_spec("LRUTrie.add_lru::while#1", LoopSpec(add_lru_inv1, havoc=havoc_add_lru1, locals_=("i",), world=TKEYS + GHOSTS, prune=Wd.prune_dead_world_facts))
+    return cs
+
+
+# ---------------------------------------------------------------------------- add_page hands the walk history on (C06)
+def pre_lengths_monotone():
+    """byte lengths of the stem-prefixes of the query grow with the number of stems
+    (by induction from PRE(j+1) = PRE(j) + QS(j); the step is discharged in add_page's
+    check as `lemma:stem-prefix-lengths-grow:step`)"""
+    a, b = z3.Ints("a b")
+    return z3.ForAll([a, b], z3.Implies(z3.And(a >= 0, a <= b), blen(PRE(a)) <= blen(PRE(b))))
+
+
+_AddPage_check0 = AddPage.check
+
+
+def _addpage_check(self, ex, p0, res, tag):
+    _AddPage_check0(self, ex, p0, res, tag)
+    if not ADD_LRU_HISTORY:
+        return
+    from pyvc.sym import list_elem
+
+    # lemma step: blen(PRE(j)) <= blen(PRE(j+1))
+    q = Path()
+    j = fresh("j", INT)
+    q.assume(j >= 0)
+    q.assume(PRE(j + 1) == bcat(PRE(j), QS(j)))
+    ex.oblige(q, "lemma:stem-prefix-lengths-grow:step", blen(PRE(j)) <= blen(PRE(j + 1)), None)
+    for p1, kind, val in res:
+        if kind == "raise" or not isinstance(val, tuple):
+            continue
+        hist = val[1]
+        k = p1.w.get("__walked")
+        if k is None:
+            ex.oblige(p1, "returned-history:comes-from-add_lru", False, None)
+            continue
+        for nm, f in history_is(ex, p1, hist, k, "returned-history", ADD_SPEC) + rules_is(ex, p1, hist, k, "returned-history", ADD_SPEC):
+            ex.oblige(p1, nm, f, None)
+        o = p1.obj(hist)
+        ex.oblige(p1, "returned-history:lru-is-the-argument", to_z3(o.f["lru"]) == PRE(QL), None)
+        # what the ladder (contracts/ladder.py) takes for granted about this history
+        q2 = p1.fork()
+        q2.assume(pre_lengths_monotone())
+        r = p1.obj(o.f["webentity_creation_rules"])
+        kk = fresh("k", INT)
+        if "len" in r.f:
+            el = list_elem(r)
+            ex.oblige(q2, "returned-history:every-rule-position-lies-within-the-lru", z3.Implies(z3.And(kk >= 0, kk < r.f["len"]), z3.And(to_z3(el(kk)) >= 0, to_z3(el(kk)) <= blen(PRE(QL)))), None)
+        ex.oblige(q2, "returned-history:webentity-position-is--1-or-a-length-within-the-lru", z3.And(to_z3(o.f["webentity_position"]) >= -1, to_z3(o.f["webentity_position"]) <= blen(PRE(QL))), None)
+
+
+AddPage.check = _addpage_check
